@@ -83,6 +83,7 @@ def Cst.orderOk : Cst → Bool
   | .selOr e _ _ _ _ _ _ _ d => e.orderOk && d.orderOk
   | .lam _ _ _ _ _ b => b.orderOk
   | .un _ _ _ e => e.orderOk
+  | .bin l _ _ _ _ _ r => l.orderOk && r.orderOk
 /-- An `assert` renders its trailing trivia (`after`) between its `;` and its body: a comment that the
     enclosing sequence attaches to an `assert` item (any comment after it: top level, parentheses) comes
     out in front of the body (`C03.cex_comment_after_assert`). The value of a binding is rendered without
@@ -113,6 +114,7 @@ def Cst.orderOkSeq : Cst → Bool
   | .selOr e _ _ _ _ _ _ _ d => e.orderOkSeq && d.orderOkSeq
   | .lam _ _ _ _ _ b => b.orderOkSeq
   | .un _ _ _ e => e.orderOkSeq
+  | .bin l _ _ _ _ _ r => l.orderOkSeq && r.orderOkSeq
 def Items.orderOkSeq : Items → Mode → Prev → Bool → Bool → Bool
   | .nil, _, _, _, _ => true
   | .cmt g _ rest, m, prev, pending, hasItem =>
@@ -171,6 +173,7 @@ def Expr.effAfter : Expr → Bool → List Trivia
   | .selOr _ _ _ _ _ _ _ _ a, na => if na then [] else a
   | .lam _ _ _ _ _ _ a, na => if na then [] else a
   | .un _ _ _ _ _ a, na => if na then [] else a
+  | .bin _ _ _ _ _ _ a, na => if na then [] else a
 
 def closedB (ts : List Trivia) : Bool :=
   match ts.getLast? with
@@ -198,6 +201,7 @@ def Expr.inlineCleanB : Expr → Bool
   | .selOr .. => false
   | .lam .. => false
   | .un .. => false
+  | .bin .. => false
 def allInlineCleanB : List Expr → Bool
   | [] => true
   | e :: rest => e.inlineCleanB && allInlineCleanB rest
@@ -228,6 +232,7 @@ def Expr.beforeFlatB : Expr → Bool
   | .selOr .. => false
   | .lam .. => false
   | .un .. => false
+  | .bin .. => false
 def allBeforeFlatB : List Expr → Bool
   | [] => true
   | e :: rest => e.beforeFlatB && allBeforeFlatB rest
@@ -252,6 +257,7 @@ def Expr.beforeFlatG : Expr → Bool
   | .selOr .. => false
   | .lam .. => false
   | .un .. => false
+  | .bin .. => false
 def allBeforeFlatG : List Expr → Bool
   | [] => true
   | e :: rest => e.beforeFlatG && allBeforeFlatG rest
@@ -275,6 +281,7 @@ def Expr.beforeFlatP : Expr → Bool
   | .selOr .. => false
   | .lam .. => false
   | .un .. => false
+  | .bin .. => false
 def allBeforeFlatP : List Expr → Bool
   | [] => true
   | e :: rest => e.beforeFlatP && allBeforeFlatP rest
@@ -295,6 +302,7 @@ def Cst.orderOkNA : Cst → Bool
   | .selOr e _ _ _ _ _ _ _ d => e.orderOkNA && d.orderOkNA
   | .lam _ _ _ _ _ b => b.orderOkNA
   | .un _ _ _ e => e.orderOkNA
+  | .bin l _ _ _ _ _ r => l.orderOkNA && r.orderOkNA
 def Items.orderOkNA : Items → Mode → Prev → Bool → Bool → Bool
   | .nil, _, _, _, _ => true
   | .cmt g _ rest, m, prev, pending, hasItem =>
@@ -325,6 +333,7 @@ def Cst.basic : Cst → Bool
   | .selOr .. => false
   | .lam .. => false
   | .un .. => false
+  | .bin .. => false
 def Items.basic : Items → Bool
   | .nil => true
   | .cmt _ _ rest => rest.basic
@@ -348,6 +357,7 @@ def Cst.cf : Cst → Bool
   | .selOr .. => false
   | .lam .. => false
   | .un .. => false
+  | .bin .. => false
 def Items.cf : Items → Bool
   | .nil => true
   | .cmt _ _ _ => false
@@ -393,6 +403,7 @@ def Cst.norm : Cst → Nat → Cst
   | .selOr e c1 g1 gd attrs c2 g2 g3 d, _ => .selOr e c1 g1 gd attrs c2 g2 g3 d
   | .lam n c1 g1 c2 g2 b, _ => .lam n c1 g1 c2 g2 b
   | .un op c g e, _ => .un op c g e
+  | .bin l c1 g1 op c2 g2 r, _ => .bin l c1 g1 op c2 g2 r
 /-- items of a container that spans several lines, one per line at indentation `j` -/
 def Items.normML : Items → Nat → Items
   | .nil, _ => .nil
